@@ -606,8 +606,8 @@ class MeiParser(object):
                     1,
                 )  # if no tuplet modifier, set one that does not change the duration
             duration = (divs * 4 * tuplet_mod[0]) / (intsymdur * tuplet_mod[1])
-            for d in range(dots):
-                duration = duration + 0.5 * duration
+            # each dot adds half of the value added before: 1 + 1/2 + 1/4 + ...
+            duration = duration * (2 - 0.5**dots)
             # sanity check to verify the divs are correctly set
             assert duration == int(duration)
 
